@@ -455,6 +455,21 @@ func takeSnapshot(e *evalfilter.Eval, names []string) Snapshot {
 		for _, n := range gl {
 			exists[n] = true
 		}
+		// every variable the evaluator holds belongs to the snapshot, not
+		// only the ones the analysis of the script text found (after the
+		// script was edited, variables of the old text are still there)
+		have := map[string]bool{}
+		for _, n := range names {
+			have[n] = true
+		}
+		extra := []string{}
+		for _, n := range gl {
+			if !have[n] && n != "OPTIMIZE" && n != "DEBUG" {
+				extra = append(extra, n)
+			}
+		}
+		sort.Strings(extra)
+		names = append(append([]string{}, names...), extra...)
 	}
 	for _, n := range names {
 		v := e.GetVariable(n)
@@ -787,4 +802,43 @@ func childCommand(name string, args ...string) *exec.Cmd {
 	cmd := exec.Command(name, args...)
 	cmd.SysProcAttr = &syscall.SysProcAttr{Pdeathsig: syscall.SIGKILL}
 	return cmd
+}
+
+// editedScript returns a variant of text, as a host produces when its user
+// edits a filter and the host assigns the new text to the exported Script
+// field of the evaluator it already has, then calls Prepare again.
+func editedScript(c *verifsim.Chooser, text string) (string, string) {
+	lines := strings.Split(text, "\n")
+	switch c.Intn(7) {
+	case 0:
+		// one line less (not a line that opens or closes a block)
+		var cand []int
+		for i, l := range lines {
+			t := strings.TrimSpace(l)
+			if t != "" && !strings.ContainsAny(t, "{}") {
+				cand = append(cand, i)
+			}
+		}
+		if len(cand) > 0 {
+			i := cand[c.Intn(len(cand))]
+			return strings.Join(append(append([]string{}, lines[:i]...), lines[i+1:]...), "\n"), "one line removed"
+		}
+	case 1:
+		return GenScript(c, GenCfg{Funcs: true, Faults: true, Hashes: true, MaxStmts: 6}).Text, "another generated script"
+	case 2:
+		pool := scriptPool()
+		return pool[c.Intn(len(pool))], "a script of the pool"
+	case 3:
+		return "g0 = 77;\n" + text, "a statement added in front"
+	case 4:
+		return text, "unchanged"
+	case 5:
+		// another constant
+		for i := 0; i < len(text); i++ {
+			if text[i] >= '1' && text[i] <= '8' && (i == 0 || text[i-1] == ' ' || text[i-1] == '(') {
+				return text[:i] + string(text[i]+1) + text[i+1:], "a constant changed"
+			}
+		}
+	}
+	return text + "\ng1 = \"edited\";\n", "a statement appended"
 }
